@@ -167,7 +167,7 @@ impl super::Connector for SocksConnector {
                 udp_remote = SocketAddr::new(remote.ip(), udp_remote.port());
             }
             let udp_local = into_unspecified(remote);
-            let (_, frames) = setup_udp_session(udp_local, Some(udp_remote))
+            let (_, frames) = setup_udp_session(udp_local, Some(udp_remote), None)
                 .await
                 .context("setup_udp_session")?;
             ctx.write().await.set_server_frames(frames);
